@@ -183,6 +183,15 @@ func (obj *Vector) Adjust(
 	return obj
 }
 
+// LoadForm returns a form that can be evaluated to create the object.
+func (obj *Vector) LoadForm() Object {
+	form := obj.Array.LoadForm().(List)
+	if 0 <= obj.FillPtr {
+		form = append(form, Symbol(":fill-pointer"), Fixnum(obj.FillPtr))
+	}
+	return form
+}
+
 // FillPointer returns the fill-pointer as an int.
 func (obj *Vector) FillPointer() int {
 	return obj.FillPtr
